@@ -276,7 +276,7 @@ class Recorder:
             self.shared[i] = (obj, label)
             for j, v in enumerate(list(obj)):
                 self.mark(v, f"{label}[{j}]", depth + 1)
-        elif isinstance(obj, set):
+        elif isinstance(obj, (set, bytearray)) or type(obj).__name__ in ("deque", "array"):
             self.shared[i] = (obj, label)
         elif isinstance(obj, tuple):
             for j, v in enumerate(obj):
@@ -396,8 +396,8 @@ class Recorder:
             key = args[0] if (name in KEYED and args) else None
             if isinstance(recv, dict):
                 w = name in DICT_W
-            elif isinstance(recv, list):
-                w = name in LIST_W
+            elif isinstance(recv, (list, bytearray)) or type(recv).__name__ in ("deque", "array"):
+                w = name in LIST_W or name in ("appendleft", "popleft", "extendleft", "rotate", "fromlist", "frombytes")
             elif isinstance(recv, set):
                 w = name in SET_W
             else:
